@@ -1162,6 +1162,19 @@ class _Identifiers:
 
     def visitControlLine(self, node):
         self.check_declared(node)
+        if (
+            self.compiler.enable_loop
+            and node.keyword == "for"
+            and not node.isend
+            and "loop" not in self.declared.union(self.locally_declared)
+        ):
+            # a loop whose body refers to "loop" only inside of a nested
+            # def or <%call> is given a loop context as well, so the
+            # enclosing callable has to establish the loop stack
+            loop_variable = LoopVariable()
+            node.accept_visitor(loop_variable)
+            if loop_variable.detected:
+                self.undeclared.add("loop")
 
     def visitCode(self, node):
         if not node.ismodule:
